@@ -32,6 +32,12 @@ CopyResult(mem, dst, src, len) ==
 CopyGas(m, dst, src, len) == 3 + 3 * Words(len) + (MemCost(Words(NewSize(m, dst, src, len))) - MemCost(Words(m)))
 
 COPY == {[k |-> "copy", m |-> m, dst |-> d, src |-> s, len |-> n] : m \in MemSizes, d \in 0..MaxOff, s \in 0..MaxOff, n \in 0..MaxOff}
+\* copies longer than a word, around the word boundaries, for every way the two ranges can lie to each other (disjoint, adjacent, overlapping by
+\* less / exactly / more than a word in either direction): an implementation that moves the bytes in pieces must still behave as memmove
+LongLens == {31, 32, 33, 63, 64, 65, 95, 96, 97, 100}
+LongDeltas == {-64, -33, -32, -31, -8, -1, 0, 1, 8, 31, 32, 33, 40, 64, 100}
+COPYLONG == {v \in {[k |-> "copy", m |-> m, dst |-> s + d, src |-> s, len |-> n] : m \in {0, 96, 256}, s \in {0, 8, 31, 32, 64}, d \in LongDeltas, n \in LongLens} :
+               v.dst >= 0}
 BIG == {[k |-> "big", m |-> 64, dst |-> d, src |-> s, len |-> n] : d \in {0, 5} \cup Bigs, s \in {0, 5} \cup Bigs, n \in {0, 1} \cup Bigs}
 FORK == {[k |-> "fork", fork |-> f, op |-> o] : f \in Forks, o \in {"TLOAD", "TSTORE", "MCOPY"}}
 TFEE == {[k |-> "tfee", slotc |-> s, valc |-> v, warm |-> w] : s \in {0, 1, 1007}, v \in {0, 1, 1007}, w \in BOOLEAN}
@@ -40,7 +46,7 @@ TFEE == {[k |-> "tfee", slotc |-> s, valc |-> v, warm |-> w] : s \in {0, 1, 1007
 TGAS == {[k |-> "tgas", op |-> o, slack |-> x] : o \in {"TLOAD", "TSTORE", "MCOPY"}, x \in {0, 1, 99, 100, 2199, 2200, 2299, 2300, 2301, 3000}}
 \* PUSH1 v PUSH1 k TSTORE STOP / PUSH1 k TLOAD POP STOP / PUSH1 32 PUSH1 0 PUSH1 0 MCOPY STOP (empty memory: one word of expansion)
 ProgGas(o) == CASE o = "TSTORE" -> 3 + 3 + 100 [] o = "TLOAD" -> 3 + 100 + 2 [] o = "MCOPY" -> 3 + 3 + 3 + CopyGas(0, 0, 0, 32)
-Vectors == (IF "tgas" \in Kinds THEN TGAS ELSE {}) \cup (IF "copy" \in Kinds THEN COPY ELSE {}) \cup (IF "big" \in Kinds THEN BIG ELSE {})
+Vectors == (IF "tgas" \in Kinds THEN TGAS ELSE {}) \cup (IF "copy" \in Kinds THEN COPY \cup COPYLONG ELSE {}) \cup (IF "big" \in Kinds THEN BIG ELSE {})
            \cup (IF "fork" \in Kinds THEN FORK ELSE {}) \cup (IF "tfee" \in Kinds THEN TFEE ELSE {})
 
 Init == vec \in Vectors
